@@ -16,5 +16,5 @@ mkdir -p "$root/.build"; [ -f "$ev" ] && cp "$ev" "$bak"
 out=$(./check "$id" "$tier" 2>&1); rc=$?
 git -C "$repo" checkout -- .
 if [ -f "$bak" ]; then mv "$bak" "$ev"; fi
-echo "$out" | grep -E "VIOLATION|KNOWN-FINDING|INCONCLUSIVE|HELD" | head -8
+echo "$out" | grep -aE "VIOLATION|KNOWN-FINDING|INCONCLUSIVE|HELD" | head -8
 if [ $rc -eq 1 ]; then echo "CAUGHT $id $(basename $patch) tier=$tier"; else echo "MISSED $id $(basename $patch) tier=$tier rc=$rc"; fi
